@@ -150,7 +150,7 @@ def explore(fn, max_paths=200000, max_seconds=600.0, sample_paths=3, keep_violat
     """fn(draw) -> True | failure tuple.  Returns a result dict."""
     t0 = time.time()
     q0, s0 = E.queries, E.solver_s
-    work = [[]]
+    work = [([], [])]
     E.new_obligation()
     res = dict(paths=0, aborted=0, decisions=0, violations=[], unsupported=[], samples=[], exhaustive=True,
                failures_by_sig={}, leaks=0)
@@ -159,8 +159,9 @@ def explore(fn, max_paths=200000, max_seconds=600.0, sample_paths=3, keep_violat
             res['exhaustive'] = False
             res['unexplored_prefixes'] = len(work)
             break
-        p = work.pop()
+        p, ph = work.pop()
         E.reset(p)
+        E.prefix_hash = ph
         core._choice_counter[0] = 0
         d = SymDraw()
         ok = None
@@ -180,9 +181,10 @@ def explore(fn, max_paths=200000, max_seconds=600.0, sample_paths=3, keep_violat
         finally:
             E.active = False
         tr = E.trace
+        th = E.trace_hash
         for i in range(len(p), len(tr)):
             if E.both[i]:
-                work.append(tr[:i] + [not tr[i]])
+                work.append((tr[:i] + [not tr[i]], th[:i + 1]))
         if ok is None:
             continue
         res['paths'] += 1
